@@ -455,3 +455,39 @@ define void @k() !note !{!"k"} {
 !6 = !DIMacro(type: 1, line: 1, name: "A", value: "1")
 !7 = !DIMacro(type: DW_MACINFO_undef, line: 2, name: "A")
 !8 = !DIMacroFile(type: 200, line: 3, file: !2)
+;;; ATOM md/global-dbg-attachment-of-a-bare-diglobalvariable
+@g = global i32 0, !dbg !0
+@h = global i32 0, !dbg !5
+!llvm.module.flags = !{!3}
+!llvm.dbg.cu = !{!2}
+!0 = distinct !DIGlobalVariable(name: "g", scope: !2, file: !1, line: 1, type: !4, isLocal: false, isDefinition: true)
+!1 = !DIFile(filename: "a.c", directory: "/")
+!2 = distinct !DICompileUnit(language: DW_LANG_C99, file: !1, emissionKind: FullDebug)
+!3 = !{i32 2, !"Debug Info Version", i32 3}
+!4 = !DIBasicType(name: "int", size: 32, encoding: DW_ATE_signed)
+!5 = !DIGlobalVariableExpression(var: !6, expr: !DIExpression())
+!6 = distinct !DIGlobalVariable(name: "h", scope: !2, file: !1, line: 2, type: !4, isLocal: false, isDefinition: true)
+;;; ATOM md/named-names-differing-in-letter-case
+!Checks = !{!0}
+!checks = !{!1}
+!CHECKS = !{!2}
+!cHECKS = !{!0, !2}
+!a10 = !{!1}
+!A9 = !{!1}
+!0 = !{!"a"}
+!1 = !{!"b"}
+!2 = !{!"c"}
+;;; ATOM md/ids-and-attribute-group-ids-beyond-31-bits
+define void @f() #3000000000 {
+  ret void, !tag !2147483648
+}
+define void @g() #2 !tag !4294967295 {
+  ret void, !tag !1
+}
+attributes #3000000000 = { nounwind }
+attributes #2 = { readnone }
+!nm = !{!4000000000, !1}
+!2147483648 = !{!"b"}
+!4294967295 = !{!"d"}
+!1 = !{!"a"}
+!4000000000 = !{!"c"}
